@@ -1781,6 +1781,7 @@ def normalize_tree(tree, foreign=None):
     n += normalize2.forward_lazy_temps(tree)
     n += normalize2.split_chain_loops(tree)
     n += normalize2.unroll_tables(tree)
+    n += normalize2.read_properties(tree, anchor_names(), foreign)
     inl = Inliner(tree, anchor_names(), foreign)
     n_inl = inl.run()
     if normalize2.devirtualize_calls(tree):
